@@ -422,6 +422,17 @@ Proof.
   cbn [map]. rewrite sumZ_cons. destruct (_ && _); lia.
 Qed.
 
+Lemma edge_cut_sprs_nonneg g p : nonneg_edges g -> 0 <= edge_cut_sprs g p.
+Proof.
+  intros H. unfold edge_cut_sprs. apply sumn_nonneg. intros v _. unfold rowof.
+  assert (Hr : Forall (fun e => 0 <= snd e) (nth v g [])).
+  { destruct (Nat.lt_ge_cases v (length g)) as [L|L].
+    - unfold nonneg_edges in H. rewrite Forall_forall in H. apply H. apply nth_In. exact L.
+    - rewrite nth_overflow by lia. constructor. }
+  induction Hr as [|e t He Ht IH]; cbn [row_cut_sprs]; [lia|].
+  destruct (Nat.ltb _ _); [|lia]. destruct (N.eqb _ _); lia.
+Qed.
+
 Lemma pfun_set_nth p x b v : (x < length p)%nat -> pfun (set_nth p x b) v = upd (pfun p) x b v.
 Proof.
   unfold pfun, upd. revert x v. induction p as [|a t IH]; intros x v Hx; [cbn in Hx; lia|].
